@@ -1625,7 +1625,8 @@ def build_facts(L, elem, workdir, std='c++17', defs=('-DAMC_NONSTD_FEATURES', '-
             exprs.add(ne)
     exprs = sorted(exprs)
     src = ['#include "ghost_types.hpp"', '#include <amc/vector.hpp>', '#include <amc/smallvector.hpp>',
-           '#include <amc/fixedcapacityvector.hpp>', '#include <amc/flatset.hpp>', '#include <cstdio>',
+           '#include <amc/fixedcapacityvector.hpp>', '#include <amc/flatset.hpp>',
+           '#if __cplusplus >= 201703L', '#include <amc/smallset.hpp>', '#endif', '#include <cstdio>',
            'namespace amc { namespace vec { void facts() {']
     for i, ex in enumerate(exprs):
         src.append('  std::printf("N\\t%d\\t%%d\\n", (int)(%s));' % (i, ex))
@@ -1646,17 +1647,28 @@ def build_facts(L, elem, workdir, std='c++17', defs=('-DAMC_NONSTD_FEATURES', '-
     os.makedirs(workdir, exist_ok=True)
     cpp = os.path.join(workdir, 'facts_%s.cpp' % elem)
     exe = os.path.join(workdir, 'facts_%s' % elem)
-    open(cpp, 'w').write('\n'.join(src) + '\n')
-    r = subprocess.run(['g++', '-std=' + std] + list(defs) + ['-I' + repo_inc, '-I' + driver_inc, '-w', '-c', cpp, '-o', exe + '.o'],
-                       capture_output=True, text=True)
-    if r.returncode != 0:
+    dropped = []
+    for attempt in range(8):
+        open(cpp, 'w').write('\n'.join(src) + '\n')
+        r = subprocess.run(['g++', '-std=' + std] + list(defs) + ['-I' + repo_inc, '-I' + driver_inc, '-w', '-c', cpp, '-o', exe + '.o'],
+                           capture_output=True, text=True)
+        if r.returncode == 0:
+            break
+        # an expression that does not compile in this context makes its function 'potentially throwing' (conservative)
+        bad = sorted({int(m.group(1)) for m in re.finditer(re.escape(cpp) + r':(\d+):', r.stderr)}, reverse=True)
+        bad = [b for b in bad if 0 < b <= len(src) and src[b - 1].lstrip().startswith('std::printf("N')]
+        if not bad:
+            raise SystemExit('facts program does not compile:\n' + r.stderr[:3000])
+        for b in bad:
+            dropped.append(src[b - 1]); src[b - 1] = ''
+    else:
         raise SystemExit('facts program does not compile:\n' + r.stderr[:3000])
     # ghost types are declarations only: link with no references (traits only) -- use -c + a second TU-free link
     r = subprocess.run(['g++', exe + '.o', '-o', exe], capture_output=True, text=True)
     if r.returncode != 0:
         raise SystemExit('facts program does not link:\n' + r.stderr[:3000])
     out = subprocess.run([exe], capture_output=True, text=True).stdout
-    facts = {'noexcept': {}, 'elem': elem}
+    facts = {'noexcept': {}, 'elem': elem, 'noexcept_not_evaluated': len(dropped)}
     for line in out.splitlines():
         t = line.split('\t')
         if t[0] == 'N':
